@@ -66,16 +66,30 @@ type Ctx struct {
 // is recorded and the caller may carry on with the case; the kernel prints it
 // as KNOWN-FINDING instead of VIOLATION.
 func (c *Ctx) Tolerate(v *Violation) bool {
-	if v == nil || !c.known[v.Class] {
+	if v == nil || !c.IsKnown(v.Class) {
 		return false
 	}
 	c.KnownHits = append(c.KnownHits, v)
 	return true
 }
 
+// IsKnown reports whether class is listed (exactly, or by a listed prefix
+// ending in '*', which only survey runs use).
+func (c *Ctx) IsKnown(class string) bool {
+	if c.known[class] {
+		return true
+	}
+	for k := range c.known {
+		if strings.HasSuffix(k, "*") && strings.HasPrefix(class, strings.TrimSuffix(k, "*")) {
+			return true
+		}
+	}
+	return false
+}
+
 func knownFromEnv() map[string]bool {
 	m := map[string]bool{}
-	for _, k := range strings.Split(os.Getenv("VERIF_KNOWN"), ",") {
+	for _, k := range strings.Split(os.Getenv("VERIF_KNOWN"), "|") {
 		if k = strings.TrimSpace(k); k != "" {
 			m[k] = true
 		}
@@ -160,26 +174,26 @@ type Property struct {
 
 // workerOut is what one worker process writes.
 type workerOut struct {
-	Property    string          `json:"property"`
-	Worker      int             `json:"worker"`
-	Seed        uint64          `json:"seed"`
-	Tier        string          `json:"tier"`
-	Cases       int             `json:"cases"`
-	Skipped     int             `json:"skipped_after_budget"`
-	NonTrivial  []string        `json:"nontrivial_digests"`
-	Ops         int             `json:"ops"`
-	SimTimeS    float64         `json:"sim_time_s"`
-	WallS       float64         `json:"wall_s"`
-	Faults      map[string]int  `json:"faults"`
-	Probes      map[string]int  `json:"probes"`
-	States      []string        `json:"states"`
-	CaseDigests []string        `json:"case_digests,omitempty"`
-	Samples     []any           `json:"samples"`
-	Violation   *violationOut   `json:"violation,omitempty"`
+	Property    string               `json:"property"`
+	Worker      int                  `json:"worker"`
+	Seed        uint64               `json:"seed"`
+	Tier        string               `json:"tier"`
+	Cases       int                  `json:"cases"`
+	Skipped     int                  `json:"skipped_after_budget"`
+	NonTrivial  []string             `json:"nontrivial_digests"`
+	Ops         int                  `json:"ops"`
+	SimTimeS    float64              `json:"sim_time_s"`
+	WallS       float64              `json:"wall_s"`
+	Faults      map[string]int       `json:"faults"`
+	Probes      map[string]int       `json:"probes"`
+	States      []string             `json:"states"`
+	CaseDigests []string             `json:"case_digests,omitempty"`
+	Samples     []any                `json:"samples"`
+	Violation   *violationOut        `json:"violation,omitempty"`
 	Known       map[string]*knownOut `json:"known,omitempty"`
-	HarnessErr  string          `json:"harness_error,omitempty"`
-	Meta        map[string]any  `json:"meta"`
-	Notes       map[string]bool `json:"-"`
+	HarnessErr  string               `json:"harness_error,omitempty"`
+	Meta        map[string]any       `json:"meta"`
+	Notes       map[string]bool      `json:"-"`
 }
 
 type knownOut struct {
@@ -251,14 +265,17 @@ type quietTB struct {
 	msgs   []string
 }
 
-func (q *quietTB) Helper()                           {}
-func (q *quietTB) Name() string                      { return q.name }
-func (q *quietTB) Logf(format string, args ...any)   {}
-func (q *quietTB) Log(args ...any)                   {}
-func (q *quietTB) Skipf(format string, args ...any)  { panic("skip") }
-func (q *quietTB) Skip(args ...any)                  { panic("skip") }
-func (q *quietTB) SkipNow()                          { panic("skip") }
-func (q *quietTB) Errorf(format string, args ...any) { q.failed = true; q.msgs = append(q.msgs, fmt.Sprintf(format, args...)) }
+func (q *quietTB) Helper()                          {}
+func (q *quietTB) Name() string                     { return q.name }
+func (q *quietTB) Logf(format string, args ...any)  {}
+func (q *quietTB) Log(args ...any)                  {}
+func (q *quietTB) Skipf(format string, args ...any) { panic("skip") }
+func (q *quietTB) Skip(args ...any)                 { panic("skip") }
+func (q *quietTB) SkipNow()                         { panic("skip") }
+func (q *quietTB) Errorf(format string, args ...any) {
+	q.failed = true
+	q.msgs = append(q.msgs, fmt.Sprintf(format, args...))
+}
 func (q *quietTB) Error(args ...any)                 { q.failed = true; q.msgs = append(q.msgs, fmt.Sprint(args...)) }
 func (q *quietTB) Fatalf(format string, args ...any) { q.Errorf(format, args...); panic(failNow{}) }
 func (q *quietTB) Fatal(args ...any)                 { q.Error(args...); panic(failNow{}) }
@@ -415,7 +432,7 @@ func explore(t *testing.T, p *Property) {
 				}
 				k.Count++
 			}
-		} else if v, ok := err.(*Violation); ok && c.known[v.Class] {
+		} else if v, ok := err.(*Violation); ok && c.IsKnown(v.Class) {
 			err = nil
 		}
 		if err == nil {
